@@ -260,6 +260,41 @@ theorem density_step_partial (xs : List α) (R : List α) (nf : Nat → α) (kn 
   refine ⟨le_trans hp hsum, ?_, trunc_nonneg _⟩
   exact le_trans (trunc_sum_bounds _ hppos).1 (le_trans hp hsum)
 
+/-- **density_step_corrected**: the same chain for the fluxes the solver actually applies (PBM upwind
+fluxes of any growth field, corrected by `correctdXdtEuler`).  Since the repair of the correction (the total
+outflow of a class is limited, known_findings.txt `fixed: property=C02 f9a39e6`) the non-negativity of the
+new state is a CONCLUSION (`C07.corrected_update_nonneg`), no longer a hypothesis, for every step size; the
+one-sidedness of the end fluxes follows from the non-negativity of the stored PSD. -/
+theorem density_step_corrected (xs R : List α) (flux dR : Nat → α) (kn : Nat) (r dt minRadius : α)
+    (kz : Nat) (hk : kn < xs.length) (hlen : xs.length = R.length)
+    (hdt : 0 < dt) (hr : 0 ≤ r) (hx : ∀ v ∈ xs, 0 ≤ v) (hdR : ∀ i, 0 < dR i) :
+    let x := fun i => xs.getD i 0
+    let nf := correctedFlux xs.length dt x (netFlux xs.length flux x dR)
+    let x' := (List.range xs.length).map (eulerUpdate x (dXdt nf kn r) dt)
+    (∀ v ∈ x', 0 ≤ v) ∧
+    (processX kz minRadius x' R).sum ≤ xs.sum + r * dt ∧
+    (trunc (processX kz minRadius x' R)).sum ≤ xs.sum + r * dt ∧
+    (∀ v ∈ trunc (processX kz minRadius x' R), 0 ≤ v) := by
+  intro x nf x'
+  have hx0 : ∀ i, 0 ≤ x i := by
+    intro i
+    simp only [x, List.getD_eq_getElem?_getD]
+    cases h : xs[i]? with
+    | none => simp
+    | some v => simpa using hx v (List.mem_of_getElem? h)
+  have hnew : ∀ i, i < xs.length → 0 ≤ eulerUpdate x (dXdt nf kn r) dt i := by
+    intro i hi
+    have := C07.corrected_update_nonneg xs.length dt x (netFlux xs.length flux x dR) i hi kn r hr hdt hx0
+    unfold eulerUpdate
+    rw [mul_comm]; exact this
+  have h0 := C07.corrected_zero_nonpos xs.length dt x _ hdt hx0 (C07.netFlux_zero_nonpos xs.length flux x dR hx0 hdR)
+  have hn := C07.corrected_last_nonneg xs.length dt x _ hdt hx0 (C07.netFlux_last_nonneg xs.length flux x dR hx0 hdR)
+  have hp := density_step_partial xs R nf kn r dt minRadius kz hk hlen hdt.le h0 hn hnew
+  refine ⟨?_, hp⟩
+  intro v hv
+  obtain ⟨i, hi, rfl⟩ := List.mem_map.mp hv
+  exact hnew i (by simpa using hi)
+
 /-! ### re-mesh steps: the clause is false of the code (known finding `remesh-changes-number-density`) -/
 
 /-- 9 classes on [1,10], only class 7 = [8,9] populated with 50 particles -/
@@ -288,5 +323,11 @@ example : (∀ v ∈ ([5, 0, 7/2] : List ℚ), 0 ≤ v) ∧ trunc ([5, 1/2, 7/2]
 /-- a concrete step meeting the hypotheses of `density_step_le` (dissolution through class 0) -/
 example : (0:ℚ) ≤ 1 ∧ (fun j : Nat => if j = 0 then (-2:ℚ) else 0) 0 ≤ 0 ∧
     (0:ℚ) ≤ (fun j : Nat => if j = 0 then (-2:ℚ) else 0) 3 := by norm_num
+
+/-- the hypotheses of `density_step_corrected` are met by a concrete stored PSD (non-negative, uniform widths) -/
+example : (∀ v ∈ ([5, 0, 7/2] : List ℚ), 0 ≤ v) ∧ (0:ℚ) < 2 ∧ (0:ℚ) ≤ 0 ∧ (∀ i : Nat, (0:ℚ) < (fun _ => 1) i) ∧
+    (1 : Nat) < ([5, 0, 7/2] : List ℚ).length := by
+  refine ⟨?_, by norm_num, le_refl _, fun _ => by norm_num, by simp⟩
+  intro v hv; simp at hv; rcases hv with rfl | rfl | rfl <;> norm_num
 
 end KawinV.Props.C02
